@@ -29,6 +29,7 @@ from gen import api_walk, texts
 from props.c01 import raw_lines, load_local_known, exc_key
 
 MODELS = ['Names', 'ParsoPos']
+MODEL_TARGETS = ['JediModel.Lemmas.Tree', 'JediModel.Model.Names', 'JediModel.Model.ParsoPos']
 MANIFEST = dict(
     text='Theorems over Model.Text/Model.Tree: join(splitLines s) = s, splitLines s is never empty, the shape of '
          'every line (only \\n, \\r\\n and a lone \\r terminate a line), leaf_at_position (for every CRLF-safe tree '
